@@ -645,6 +645,13 @@ def job_special(_):
     return out
 
 
+def job_loclists(payload):
+    from vf.props import c17
+    o = c17.job(("gen", payload))
+    return {"loclist_files": o.get("files", 0), "loclist_attrs": o.get("loc_attrs", 0), "loclist_elements": o.get("elements", 0),
+            "loclist_operations": o.get("operations", 0), "bad": [("location-list:" + k, w) for k, w in o.get("bad", []) if "abbrev" not in k], "samples": []}
+
+
 def run(chk):
     quick = chk.tier == "quick"
     pool = common.Pool()
@@ -652,6 +659,9 @@ def run(chk):
     nf = 96 if quick else 2400
     zcheck.consume(chk, pool.map(job, [("gen", (chk.seed * 141650939 + i, 3)) for i in range(nf // 3)]), tot, ctx, samples, "C07")
     zcheck.consume(chk, pool.map(job_special, [0]), tot, ctx, samples, "C07 special")
+    # location attributes that hold LISTS (.debug_loc, .debug_loclists incl. loclistx and default-location entries): one element per stored
+    # range, in stored order, with the stored operations -- the generator and comparison of C17, run here for C07's own clause
+    zcheck.consume(chk, pool.map(job_loclists, [(chk.seed * 86028121 + i, 5) for i in range(8 if quick else 160)]), tot, ctx, samples, "C07 location lists")
     corpus = dwcorpus.build(quick)
     from vf.props import c02
     files = [p for p, l in corpus][::(3 if quick else 1)] + c02.sample_files()
